@@ -156,7 +156,7 @@ func (db *DB) reconstructSSTables() error {
 			// already, it would then load as a legacy table without metadata and mis-parse its values.
 			if hasEmptyMetadata(p) {
 				log.Printf("found unfinished sstable to be deleted in %v", p)
-				err = os.RemoveAll(p)
+				err = removeUnfinishedTable(p)
 				if err != nil {
 					return err
 				}
@@ -171,7 +171,7 @@ func (db *DB) reconstructSSTables() error {
 			if err != nil {
 				if isUnfinishedTable(p) {
 					log.Printf("found unfinished sstable to be deleted in %v", p)
-					err = os.RemoveAll(p)
+					err = removeUnfinishedTable(p)
 					if err != nil {
 						return err
 					}
@@ -197,6 +197,16 @@ func (db *DB) reconstructSSTables() error {
 func isUnfinishedTable(tablePath string) bool {
 	info, err := os.Stat(filepath.Join(tablePath, sstables.MetaFileName))
 	return os.IsNotExist(err) || (err == nil && info.Size() == 0)
+}
+
+// removeUnfinishedTable deletes the directory of an unfinished table, the index file first: if this is interrupted
+// after the (still empty) metadata file is gone, what remains must not look like a legacy table without metadata.
+func removeUnfinishedTable(tablePath string) error {
+	err := os.Remove(filepath.Join(tablePath, sstables.IndexFileName))
+	if err != nil && !os.IsNotExist(err) {
+		return err
+	}
+	return os.RemoveAll(tablePath)
 }
 
 // hasEmptyMetadata tells whether the table's metadata file exists but has not been written yet.
